@@ -199,7 +199,7 @@ class C20(fw.Prop):
     assumptions = ["hierarchy reached from the root covers the HUGR's nodes (checked per case by the monitor)"]
 
     def generate(self, rng, tier, ctx):
-        n = 110 if tier == "quick" else 1200
+        n = 75 if tier == "quick" else 1200
         cases = []
         for i in range(n):
             seed = rng.randrange(1 << 30)
